@@ -195,6 +195,9 @@ func (s *SimStore) fault() (Fault, bool) {
 	return Fault{}, false
 }
 
+// WrapsInterpreterError prefixes the message of a store error that wraps (%w) a typed execution error.
+const WrapsInterpreterError = "settlement ledger could not refresh: "
+
 func (s *SimStore) fail(ctx context.Context, f Fault) error {
 	s.Fired[f.Kind]++
 	switch f.Kind {
@@ -209,6 +212,11 @@ func (s *SimStore) fail(ctx context.Context, f Fault) error {
 	case FaultDeadline:
 		return context.DeadlineExceeded
 	default:
+		if strings.HasPrefix(f.Msg, WrapsInterpreterError) {
+			// a store layered on another numscript run: its error wraps that run's typed error.
+			// It is still the STORE that failed, and its message is what must come back.
+			return fmt.Errorf("%s: %w", f.Msg, interpreter.MissingFundsErr{Asset: "ZZZ", Needed: *big.NewInt(500), Available: *big.NewInt(1)})
+		}
 		return errors.New(f.Msg)
 	}
 }
